@@ -161,9 +161,18 @@ SWEEP_FNS = """
 (define (f6 x) (+ 1 (if (null? x) 0 (car x))))
 (define (f7 x y) (let ((v (vector-ref x y))) (list v (vector-ref x 0))))
 (define (f8 x) (let ((b (box x))) (set-box! b (car x)) (unbox b)))
+(define (g1 x y) (eq? x y))
+(define (g2 x) (pair? x))
+(define (g3 x) (char=? x #\\a))
+(define (g4 x) (begin (vector-set! x 0 9) (vector-ref x 0)))
+(define (g5 x) (list (eof-object) x))
+(define (g6 x) (if (pair? x) (car x) (if (eq? x 5) 'five x)))
+(define (g7 x y) (vector-set! x y 1))
+(define (g8 x) (list (list? x) (null? x) (vector? x) (string? x) (symbol? x) (number? x) (integer? x) (boolean? x)))
+(define (g9 x) (equal? x x))
 """
 SWEEP_VALS = ['"a"', "5", "0", "'()", "'(1 2)", "(vector 1)", "(box 3)", "2.5", "1/2", "#f", "'sym",
-              "9223372036854775807", "-9223372036854775808", "18446744073709551616", "(list #f 2)"]
+              "9223372036854775807", "-9223372036854775808", "18446744073709551616", "(list #f 2)", "#\\a", "(vector 1 2 3)", "(cons 1 2)"]
 
 
 def jit_sweep(ck, full=False):
